@@ -1,0 +1,5 @@
+//go:build !verif
+
+package rtp
+
+func verifPoint(name string, obj interface{}) {}
